@@ -126,6 +126,7 @@ func c08(c *Ctx) {
 		}
 		var err error
 		model, err = h.RunModel(c.Driver, lines)
+		c.CrossAll(lines, model)
 		if err != nil {
 			fmt.Println(err)
 			model = nil
